@@ -514,6 +514,7 @@ static void gen_c14(Builder &b, bool thorough) {
 	for (int t = 1; t <= ntasks; ++t) {
 		b.task = t;
 		int nops = (int)rng.range(3, thorough ? 10 : 8);
+		if (!gc.small && !thorough) nops = (int)rng.range(2, 4); // shipped constants, quick tier: an interpreted hash costs seconds under the race detector
 		std::vector<int> my; // my VMs
 		int my_cache = -1;
 		int guard = 0;
@@ -685,8 +686,12 @@ static void gen_c08(Builder &b, bool thorough) {
 				if (st + cnt > N) cnt = N - st;
 			} else if (m == 2 && cnt > 2) { uint64_t a = rng.below(cnt - 1); st = base.first + a; cnt = 1 + rng.below(cnt - a); }
 			b.task = ntasks == 1 ? 0 : 1 + (int)(rng.below(ntasks));
-			// concurrent calls of one phase must be disjoint: an overlapping second-epoch call goes to the task of the first one it meets
-			for (auto &o : b.plan.ops) if (o.kind == INIT_DATASET && o.phase == 3 && o.start < st + cnt && st < o.start + o.count) b.task = o.task;
+			// concurrent calls of one phase must be disjoint: a second-epoch call that overlaps earlier ones of this phase goes to
+			// their task (the calls of one task run in plan order); if they belong to different tasks it is dropped
+			std::set<int> owners;
+			for (auto &o : b.plan.ops) if (o.kind == INIT_DATASET && o.phase == 3 && o.start < st + std::max<uint64_t>(cnt, 1) && st < o.start + std::max<uint64_t>(o.count, 1)) owners.insert(o.task);
+			if (owners.size() > 1) continue;
+			if (owners.size() == 1) b.task = *owners.begin();
 			b.init_dataset(0, 0, st, cnt);
 		}
 	}
